@@ -335,6 +335,10 @@ pub fn fold_case((s, dl, as_char, hist): &(Vec<usize>, Vec<usize>, bool, Option<
 }
 
 fn main() {
+    kvh::on_thread(real_main);
+}
+
+fn real_main() {
     let args = kvh::parse_args("C06", "c06");
     let mut ctx = Ctx::new(args.clone(), RULE);
     if let Some(p) = &args.replay {
